@@ -700,19 +700,19 @@ def run(ctx):
 
 def dim_of(va, vb):
     a, b = va.split("\t"), vb.split("\t")
+    sa, sb = (a[8] if len(a) > 8 else "-"), (b[8] if len(b) > 8 else "-")
     if a[5] != b[5]:
         return "restore"
+    if "c" in sa and "c" in sb and a[2] != b[2]:
+        return "compaction"       # a compacting rocksdb replica vs a (never dropping) pebble / mem one
     if a[2] != b[2]:
         return "engine"
     if a[4] != b[4]:
         return "clock"
     if a[6] != b[6]:
         return "localexpiry"
-    sa, sb = (a[8] if len(a) > 8 else "-"), (b[8] if len(b) > 8 else "-")
-    if ("c" in sa) != ("c" in sb) and a[2] == b[2]:
+    if ("c" in sa) != ("c" in sb):
         return "compaction"
-    if "c" in sa and "c" in sb:
-        return "compaction"       # a compacting rocksdb replica vs a (never dropping) pebble / mem one
     if "s" in sa and "s" in sb:
         return "syncer-replay" if a[3] != b[3] else "syncer-batching"
     if a[3] != b[3] and a[7] == b[7]:
